@@ -97,6 +97,20 @@ def special_inputs():
         named = f"struct Sn{k} {{ " + ", ".join(f"{f}: {tys[(j * 7 + k) % len(tys)]}" for j, f in enumerate(fields)) + " }"
         for d in ("Debug", "Constructor", "From", "Into", "Add", "Mul", "AddAssign", "Not", "Sum"):
             out.append((d, named))
+    # DIFFERENT items with the SAME NAME (and, each being parsed on its own, the same line and column): a table kept per item name
+    # or per source position across expansions answers for the wrong item
+    same = ["enum Same { Int(i64), Str(String) }", "enum Same { Str(String), Int(i64), More(u8) }", "enum Same { Unit, Other }",
+            "enum Same { Str(u8), Float(f32), Int(i8), Extra(u16) }"]
+    for it in same:
+        for d in ("IsVariant", "Unwrap", "TryUnwrap", "TryInto", "From", "Display", "Debug"):
+            if "Unit" in it and d in ("Unwrap", "TryUnwrap", "TryInto", "From", "Display"):
+                continue
+            out.append((d, it))
+    out.append(("FromStr", "enum Same { Unit, Other }"))
+    out.append(("FromStr", "enum Same { Other, unit, UNIT }"))
+    for it in ("struct Same { a: i32, b: u8 }", "struct Same { b: u8, a: i32, c: u16 }", "struct Same(i32, u8);", "struct Same(u8);"):
+        for d in ("Debug", "Constructor", "From", "Into", "Add", "Not", "AddAssign", "Mul"):
+            out.append((d, it))
     return out
 
 
@@ -141,15 +155,23 @@ def rustc_level(chk, tier):
     items = [(d, it) for d, it in special_inputs()]
     if tier == "quick":
         items = [x for k, x in enumerate(items) if k % 3 == 0 or x[0] == "Error"][:64]
-    texts = [f"mod m{i} {{ #[derive(derive_more::{d})] {it} }}" for i, (d, it) in enumerate(items)]
-    head = "#![allow(dead_code)]"
+    # different enums of ONE name whose identifier sits at ONE source position (the body of a macro invoked twice): a table
+    # kept per (name, line, column) across expansions answers for the wrong enum - visible when the company changes
+    items += [("@raw", "mk_same!(Int(i64), Str(String));"), ("@raw", "mk_same!(Str(String), Int(i64), More(u8));"),
+              ("@raw", "mk_unit!(Low, High);"), ("@raw", "mk_unit!(High, Mid, Low, Extra);")]
+    texts = [(f"mod m{i} {{ {it} }}" if d == "@raw" else f"mod m{i} {{ #[derive(derive_more::{d})] {it} }}") for i, (d, it) in enumerate(items)]
+    head = ("#![allow(dead_code)]\n"
+            "macro_rules! mk_same { ($($v:tt)*) => { #[derive(derive_more::IsVariant, derive_more::Unwrap, derive_more::TryUnwrap, derive_more::TryInto, derive_more::From)] pub enum Same { $($v)* } } }\n"
+            "macro_rules! mk_unit { ($($v:tt)*) => { #[derive(derive_more::IsVariant, derive_more::FromStr, derive_more::Display)] pub enum Same { $($v)* } } }")
 
-    def uniform(pad):
+    def uniform(pad, order=None):
+        """the items (each in its own module) in the given order - all of them in file order by default; a sub-list leaves
+        the others out: the expansion of an item is the same whatever was expanded before it"""
         out = [head]
-        for i, t in enumerate(texts):
+        for i in (order if order is not None else range(len(texts))):
             if pad:
                 out.append(" " * (pad * (i % 7 + 1) * 13 + (997 if i == 0 else 0)))
-            out.append(t)
+            out.append(texts[i])
         return "\n".join(out) + "\nfn main() {}\n"
     dpath = vlib.write_probe("c19_rustc", uniform(0))
     env = vlib.cargo_env({"CARGO_TARGET_DIR": os.path.join(vlib.BUILD, "target-probe-nightly")})
@@ -158,7 +180,16 @@ def rustc_level(chk, tier):
         p = subprocess.run(["cargo", "+nightly", "rustc", "--offline", "-v", "--", "-Zunpretty=expanded"], cwd=dpath, env=env,
                            stdout=subprocess.PIPE, stderr=subprocess.PIPE, timeout=1800)
         if p.returncode != 0 or not p.stdout:
-            raise vlib.ToolError(f"cargo rustc -Zunpretty=expanded failed: {p.stderr.decode()[-800:]}")
+            err = p.stderr.decode("utf-8", "replace")
+            if "could not compile `c19_rustc`" in err and re.search(r"^error(\[E\d+\])?: ", err, re.M) and "could not compile `derive_more" not in err:
+                # derive_more itself built; the items - each a valid input that expands alone - do not expand TOGETHER
+                # (a derive panicked, or items expanded into clashing definitions): behaviour of the code under test
+                first = re.search(r"^error(\[E\d+\])?: .*$", err, re.M).group(0)
+                chk.deviation("rustc:together", "valid items that expand one by one do not expand in one compiler process: " + first[:300],
+                              case={"items": len(texts)}, expected="every item expands as it does alone", observed=err[-1500:],
+                              tags={"kind": "nondeterministic"})
+                return
+            raise vlib.ToolError(f"cargo rustc -Zunpretty=expanded failed: {err[-800:]}")
         for line in p.stderr.decode().splitlines():
             if line.strip().startswith("Running `") and "--crate-name c19_rustc" in line:
                 cmdline = shlex.split(line.strip()[len("Running `"):-1])
@@ -186,10 +217,13 @@ def rustc_level(chk, tier):
                 chunks[cur].append(l.strip())
         return chunks
     base = split(p.stdout)
-    if len(base) != len(texts):
+    if len(base) != len(texts):    # (the base run has every item)
         raise vlib.ToolError(f"-Zunpretty=expanded: {len(base)} modules for {len(texts)} items")
     # layouts: (name, source text)
-    layouts = [("shift:1", uniform(1)), ("shift:77", uniform(77))]
+    layouts = [("shift:1", uniform(1)), ("shift:77", uniform(77)),
+               # the same items in another COMPANY: reverse order, every second one only (either half)
+               ("reversed", uniform(0, list(range(len(texts)))[::-1])), ("evens", uniform(0, list(range(0, len(texts), 2)))),
+               ("odds", uniform(0, list(range(1, len(texts), 2)))), ("last_two_swapped", uniform(0, [len(texts) - 1, len(texts) - 2, len(texts) - 3, len(texts) - 4]))]
     bounds = [10 ** k for k in range(2, 7)]
     fracs = (0.5,) if tier == "quick" else (0.25, 0.5, 0.75)
     per_run = len(bounds)
@@ -202,6 +236,9 @@ def rustc_level(chk, tier):
                 if gi >= len(group):
                     break
                 t = texts[group[gi]]
+                if items[group[gi]][0] == "@raw":
+                    gi += 1
+                    continue
                 off = t.index("] ") + 2
                 piv = off + int((len(t) - off) * f)
                 # move the pivot to a token boundary
